@@ -51,6 +51,11 @@ pub struct Monitors {
     pub rr_window: Vec<SimId>,
     // C12 (probe rounds)
     pub round: Option<Round>,
+    /// number carried by the Ping of the previous effective probe round of this epoch
+    pub last_probe_number: Option<u8>,
+    // C01
+    /// per address: the furthest record seen since that address was last legitimately forgotten
+    pub c01_shadow: BTreeMap<u16, Member<SimId>>,
 }
 
 /// The probe round in progress, as an observer reconstructs it from the calls alone.
@@ -155,6 +160,8 @@ impl Monitors {
             rr_sig: Vec::new(),
             rr_window: Vec::new(),
             round: None,
+            last_probe_number: None,
+            c01_shadow: BTreeMap::new(),
         }
     }
 
@@ -205,6 +212,7 @@ impl Monitors {
         self.check_round_robin(pre, rec, post, at, out, stats);
         self.check_rejections(pre, rec, post, at, out, stats);
         self.check_probe_rounds(pre, rec, post, &told, at, out, stats);
+        self.check_precedence_memory(pre, rec, post, at, out);
         self.check_notifications_and_epochs(pre, rec, post, &told, delivered_genuine, at, out, stats);
         self.check_table(pre, rec, post, &told, at, out);
         self.check_incarnation(pre, rec, post, &told, at, out, stats);
@@ -589,6 +597,48 @@ impl Monitors {
         }
     }
 
+    // ---- C01 (across calls) -------------------------------------------------------------------------------
+    /// Down is final *until the member is forgotten*: the monitor remembers, per address, the furthest
+    /// record it has seen and drops it only when the forget-timer of exactly that Down identity fires.
+    /// A record that vanishes any other way (C09 reports that) and comes back lower is a move backwards.
+    fn check_precedence_memory(&mut self, pre: &Obs, rec: &CallRec, post: &Obs, at: u64, out: &mut Vec<Violation>) {
+        if rec.result == Res::Panic {
+            return;
+        }
+        if let Input::Timer(Timer::RemoveDown(id)) = &rec.input {
+            if self.c01_shadow.get(&id.addr).is_some_and(|m| m.id() == id && m.state() == State::Down) && post.slot(id.addr).is_none() {
+                self.c01_shadow.remove(&id.addr);
+            }
+        }
+        let rank = |s: State| match s {
+            State::Alive => 0,
+            State::Suspect => 1,
+            State::Down => 2,
+        };
+        for new in &post.state {
+            let addr = new.id().addr;
+            if addr == pre.id.addr || addr == post.id.addr {
+                self.c01_shadow.remove(&addr);
+                continue;
+            }
+            if let Some(old) = self.c01_shadow.get(&addr) {
+                let forward = if new.id() != old.id() {
+                    new.id().win_conflict(old.id())
+                } else if old.state() == State::Down {
+                    new.state() == State::Down
+                } else if new.state() == State::Down {
+                    true
+                } else {
+                    new.incarnation() > old.incarnation() || (new.incarnation() == old.incarnation() && rank(new.state()) >= rank(old.state()))
+                };
+                if !forward {
+                    v(out, "C01", "C01/record-moved-backwards", at, format!("the furthest record seen for address {addr} since it was last forgotten is {:?}; the table now holds {:?} (after {})", old, new, rec.input.kind()));
+                }
+            }
+            self.c01_shadow.insert(addr, new.clone());
+        }
+    }
+
     // ---- C12 (probe rounds) -------------------------------------------------------------------------------
     /// A probe round ends without suspicion only on genuine evidence (Ack from the target with the
     /// round's number, or ForwardedAck with it from a member asked in this round, in a datagram that
@@ -637,6 +687,11 @@ impl Monitors {
                         _ => None,
                     });
                     if let Some((target, number)) = ping {
+                        // an answer to an earlier round's Ping must not pass for an answer to this one
+                        if self.last_probe_number == Some(number) {
+                            v(out, "C12", "C12/probe-number-reused", at, format!("two consecutive probe rounds carry the same probe number {number}: a late or duplicated Ack of the previous round would count as evidence for this one"));
+                        }
+                        self.last_probe_number = Some(number);
                         if let Some(m) = post.slot(target.addr).filter(|m| *m.id() == target) {
                             self.round = Some(Round { target, inc: m.incarnation(), number, asked: Vec::new(), evidence: false, indirect_done: false, dirty: false });
                         }
